@@ -659,8 +659,19 @@ fn assets(o: &Opts, out: &mut Out, run: &mut u64) {
         // bank contract: asset ops on the forwarded asset, then a terminator
         let mut bank = vec![op::gtf_args(r(13), RegId::ZERO, GTFArgs::ScriptData), op::addi(r(13), r(13), 80)];   // r13 -> the other contract's id
         bank.push(op::lw(r(8), RegId::FP, 73));
+        // every sixth run is the "entry holding ZERO" history: the bank sends its whole balance of the forwarded asset away (the
+        // storage entry stays, holding 0), returns, and the script credits the same (contract, asset) again by TR and by a
+        // coin-forwarding CALL - an existing entry holding 0 is not a new entry (no new-storage gas)
+        let zero_entry = k % 6 == 5;
+        if zero_entry {
+            bank.push(op::addi(r(31), RegId::FP, 32));
+            bank.push(op::bal(r(18), r(31), RegId::FP));
+            bank.push(op::tr(r(13), r(18), r(31)));
+            bank.push(op::ret(RegId::BAL));
+        } else {
         let nb = rng.gen_range(1..7); bank.extend(asset_ops(&mut rng, true, 0x10 + 13, nb));
         match rng.gen_range(0..14) { 0 => bank.push(op::rvrt(RegId::ONE)), 1 => bank.push(op::sw(RegId::ZERO, RegId::ONE, 0)), _ => bank.push(op::ret(RegId::BAL)) }
+        }
         let init_bal = if k % 2 == 0 { Some((asset, rng.gen_range(0..1000))) } else { None };
         let c1 = tb.setup_contract(bank, init_bal, None).contract_id;
         let c2 = tb.setup_contract(vec![op::ret(RegId::BAL)], if k % 5 == 0 { Some((base, 77)) } else { None }, None).contract_id;
@@ -675,6 +686,13 @@ fn assets(o: &Opts, out: &mut Out, run: &mut u64) {
         if rng.gen_bool(0.6) { let ns = rng.gen_range(1..5); let tgt = if rng.gen_bool(0.5) { 0x10 + 12 } else { 0x10 }; sc.extend(asset_ops(&mut rng, false, tgt, ns)); sc.push(op::addi(r(31), r(0), 48)); }
         sc.push(op::movi(r(2), (amount & 0x3ffff) as u32));
         sc.push(op::call(r(0), r(2), r(31), RegId::CGAS));
+        if zero_entry {
+            sc.push(op::addi(r(31), r(0), 48));
+            sc.push(op::movi(r(15), 7)); sc.push(op::tr(r(0), r(15), r(31)));                 // TR into the entry holding 0
+            sc.push(op::movi(r(2), 5)); sc.push(op::call(r(0), r(2), r(31), RegId::CGAS));    // (drained again by the bank) ... and a forwarding CALL
+            sc.push(op::bal(r(18), r(31), r(0)));
+            sc.push(op::log(r(18), RegId::CGAS, RegId::ZERO, RegId::ZERO));
+        } else
         if rng.gen_bool(0.6) { let tgt = if rng.gen_bool(0.6) { 0x10 } else { 0x10 + 12 }; sc.extend(asset_ops(&mut rng, false, tgt, 2)); }
         match rng.gen_range(0..10) { 0 => sc.push(op::rvrt(RegId::ONE)), _ => sc.push(op::ret(RegId::RET)) }
         tb.start_script(sc, data).gas_price(0).script_gas_limit(match rng.gen_range(0..10) { 0 => rng.gen_range(100..3000), _ => 400_000 })
